@@ -17,6 +17,11 @@ DEPDIR="$(go env GOMODCACHE)/github.com/jsightapi/jsight-schema-go-library@${DEP
 rsync -a --exclude '/img' --exclude '/docs' "$DEPDIR/" "$S/dep/" || fail "rsync dep"
 chmod -R u+w "$S/dep"
 cd "$S/repo" || fail "cd"
+# Language version 1.20 in the scratch modules only: simrt.Pairs[K comparable] must be
+# instantiable with interface key types (comparable satisfaction, Go 1.20). 1.20 changed no
+# behaviour of existing code (the loop-variable change is 1.22), and the pass-through run of
+# the repository's suite guards the equivalence.
+sed -i -E 's/^go 1\.(1[0-9])$/go 1.20/' go.mod "$S/dep/go.mod"
 cat >> go.mod <<EOM
 
 require verif.local/simrt v0.0.0
